@@ -19,7 +19,7 @@ func VerifC06UploadCrash() {
 	vBudget(300000000)
 	vUnwind(200000)
 	meta, vmeta, blob := newVStore("meta"), newVStore("vmeta"), newVStore("blob")
-	stores := vCtxStoresAll(meta, vmeta, blob)
+	stores := vCtxStoresKind(meta, vmeta, blob, vChoose("storeWithCRC", 2) == 1) // plain or checksummed metadata writes
 	ctx := context.Background()
 	vAssert(CreateRepo(model.RepoDescriptor{Name: "r", Description: "d", Contributor: model.Contributor{Name: "n", Email: "e@x.io"}}, stores) == nil, "create-repo")
 	// entries per index file: 1 = every list is flushed when full, 3 = the two entries go out in the final, partial flush
